@@ -578,6 +578,30 @@ func protectedEntry(vm *otto.Otto, entry, src string) (val otto.Value, err error
 	return
 }
 
+// firstScriptAfterExit runs "try{throw 0}catch(e){return __rb()}" through one of
+// three API routes.
+func firstScriptAfterExit(vm *otto.Otto, route int) (val otto.Value, err error, panicked bool, pv interface{}) {
+	defer func() {
+		if x := recover(); x != nil {
+			panicked = true
+			pv = x
+		}
+	}()
+	switch route {
+	case 1:
+		var fn otto.Value
+		fn, err = vm.Get("__tc")
+		if err == nil {
+			val, err = fn.Call(otto.UndefinedValue())
+		}
+	case 2:
+		val, err = vm.Call("__tc", nil)
+	default:
+		val, err = vm.Run("(function(){try{throw 0}catch(e0){return __rb()}})()")
+	}
+	return
+}
+
 // protectedRun calls vm.Run(src) and converts a panic into data.
 func protectedRun(vm *otto.Otto, src string) (val otto.Value, err error, panicked bool, pv interface{}) {
 	defer func() {
@@ -812,9 +836,11 @@ func postChecks(c *StepCase, res *RunResult) *Violation {
 	lim := c.StackLimit
 	vm.SetStackDepthLimit(0) // harness scripts (read-back, continuation) are not subject to the case's limit
 	// the very first script after the exit already relies on try/catch
-	rbv, err, p, pv := protectedRun(vm, "(function(){try{throw 0}catch(e0){return __rb()}})()")
+	// (entered through a route drawn from the case: Run enters a global context
+	// first, Value.Call and Otto.Call start straight in the function)
+	rbv, err, p, pv := firstScriptAfterExit(vm, int(c.Seed%3))
 	if p || err != nil {
-		return viol("C18", "first_script_after_exit_failed", "a script using try/catch right after the exit: err=%v panic=%v", err, pv)
+		return viol("C18", "first_script_after_exit_failed", "a script using try/catch right after the exit (route %d): err=%v panic=%v", c.Seed%3, err, pv)
 	}
 	if m := checkEffects(r.journal, rbv.String()); m != "" {
 		return viol("C18", "effects_inconsistent", "%s", m)
